@@ -139,6 +139,12 @@ def gen_case(rng, nrec, small=True, nested=False, minstr=0):
     # every case has one function whose payloads contain string bodies at offsets that are not multiples of 8
     # (a cut inside them leaves args.len % 8 != 0: the realignment path of read_task_args)
     specs[1] = (["i32", "s", "s"] if rng.random() < 0.5 else ["s", "i64", "s"], ["s"])
+    if nested:
+        # two functions without any spec, last in the symbol file and called in every task: what is printed for them
+        # depends on their symbol lines only (a wrong name or a missing symbol shows in replay and report)
+        names += ["plain_a", "plain_b"]
+        syms = [(0x1000 + 0x100 * i, 0x80, "T", n) for i, n in enumerate(names)]
+        specs += [([], []), ([], [])]
     recs = []
     t = 1000
     stack = []
@@ -167,6 +173,9 @@ def gen_case(rng, nrec, small=True, nested=False, minstr=0):
     if nested:
         a0 = entry(0, 0)
         stack.append((0, a0))
+        for fi in (len(names) - 2, len(names) - 1):   # the spec-free functions are called once each, first
+            ad = entry(fi, 1)
+            exit_(fi, 1, ad)
         stack.append((1, entry(1, 1)))          # the string function is called (and returns) in every directory
     while len(recs) < nrec:
         k = rng.random()
@@ -198,8 +207,8 @@ def gen_case(rng, nrec, small=True, nested=False, minstr=0):
         # a forked child (FORK line) and a thread (TASK line), each with a small payload-free task file of its own
         for tid, ppid in ((101, 100), (102, None)):
             er, d0 = [], []
-            for _ in range(rng.randrange(2, 4)):
-                fi = rng.randrange(0, nfun + 1)
+            for j in range(rng.randrange(2, 4)):
+                fi = len(names) - 1 - (j % 2) if j < 2 else rng.randrange(0, nfun + 1)
                 er.append(dict(hdr(0, len(d0), BASE + syms[fi][0], 0), pl=("none",)))
                 d0.append(fi)
             while d0:
@@ -818,8 +827,14 @@ def e2e(ctx, objdir):
         # ---- jobs: (file, mode, n): mode "cut" (first n bytes), "missing", "drop" (line n removed, the rest kept)
         jobs = []
         for fname, content in files.items():
-            if (ctx.thorough() and len(content) <= 2000) or fname.endswith(".dbg"):
+            if ctx.thorough() and len(content) <= 2000:
                 cuts = list(range(len(content) + 1))
+            elif fname.endswith((".dbg", ".sym")):
+                # quick: of every line the first 30 byte positions (.sym: up to the first byte of the name; .dbg: the stubs
+                # F / F: / L: and the line number), then every 4th byte, and the line ends
+                cuts = [n for n in range(len(content) + 1)
+                        if n - (content[:n].rfind(b"\n") + 1) <= (30 if fname.endswith(".sym") else 8)
+                        or (n - (content[:n].rfind(b"\n") + 1)) % 4 == 0 or content[n:n + 1] == b"\n" or n == len(content)]
             elif fname == "100.dat":
                 # quick: every record / header / argument-piece boundary +-2, at least two cuts inside every piece (so
                 # every string body), every 4th byte of the rest (the in-process tie reads every cut of such files)
@@ -863,10 +878,17 @@ def e2e(ctx, objdir):
                 # every `key:value` line of info), the other lines kept
                 jobs += [(fname, "drop", i) for i in range(len(text_lines(content, fname)[1]))]
             if fname in ("task.txt", "info") or fname.endswith(".dbg"):
-                # a line reduced to its first 1..3 bytes, newline kept (n = 4 * line + bytes): the malformed-line paths of
+                # a line reduced to its first 1..3 bytes, newline kept (n = 64 * line + bytes): the malformed-line paths of
                 # the line parsers, which a prefix cut no longer reaches where an unterminated last line is ignored
-                jobs += [(fname, "stub", 4 * i + k) for i in range(len(text_lines(content, fname)[1]))
+                jobs += [(fname, "stub", 64 * i + k) for i in range(len(text_lines(content, fname)[1]))
                          for k in ((1, 2, 3) if ctx.thorough() else (1 + i % 2, 3))]
+            if fname.endswith(".sym"):
+                # a symbol line that ends before its name ("<addr> <size> <type> " is 28 bytes), newline kept: it names no
+                # symbol, so the commands must print what they print without that line (the drop job of the same line)
+                nl = len(text_lines(content, fname)[1])
+                jobs += [(fname, "drop", i) for i in range(nl)]
+                jobs += [(fname, "stub", 64 * i + k) for i in range(2, nl)
+                         for k in (range(1, 29) if ctx.thorough() else (16, 17, 25, 26, 27, 28))]
 
         def with_variants(job):
             """quick tier: the option variants run on the whole-line and whole-record damage, on everything next to it,
@@ -903,7 +925,7 @@ def e2e(ctx, objdir):
                 fs[fname] = pre + b"".join(ls[:n] + ls[n + 1:])
             elif mode == "stub":
                 pre, ls = text_lines(files[fname], fname)
-                i, k = divmod(n, 4)
+                i, k = divmod(n, 64)
                 fs[fname] = pre + b"".join(ls[:i] + [ls[i][:k].rstrip(b"\n") + b"\n"] + ls[i + 1:])
             else:
                 fs[fname] = files[fname][:n]
@@ -926,6 +948,8 @@ def e2e(ctx, objdir):
             if job[1] == "stub" and not ctx.thorough():
                 # quick: the malformed-line paths are exercised by the plain commands and the per-task / info consumers
                 cmds = CMDS + ["info --task", "report --task", "dump --flame-graph"]
+            if job[0].endswith(".sym") and not ctx.thorough() and (job[1] in ("stub", "drop") or (job[1] == "cut" and not wv)):
+                cmds = ["replay", "report"]                              # the names (quick): stub vs drop, cut vs copy
             if job[0].endswith(".dbg"):
                 if job[1] == "cut" and not wv and not ctx.thorough():
                     cmds = ["replay", "report"]                          # quick, mid-line cuts of a .dbg: its consumers only
@@ -934,7 +958,7 @@ def e2e(ctx, objdir):
                 cmds = cmds + ["dump --flame-graph"]      # reads info.elapsed_time: on every cut of info
             jd = os.path.join(root, "j-%s-%s-%d" % (job[0].replace("/", "_"), job[1], job[2]))
             r_ = run_cmds(uft, jd, content_of(job), cmds)
-            if wv:
+            if wv and (ctx.thorough() or job[1] != "stub"):
                 r_.update(run_cmds(uft, jd + "-diff", files, [DIFF_DAMAGED[0]], second=content_of(job)))
             if any(v[0] in (124, 137, 153) or v[0] < 0 for v in r_.values()):
                 hung.append(job)
@@ -956,7 +980,8 @@ def e2e(ctx, objdir):
             fs = dict(files)
             fs[fname] = files[fname][:n] + (b"\n" if nl else b"")
             return key, run_cmds(uft, os.path.join(root, "t-%s-%d-%d" % (fname.replace("/", "_"), n, nl)), fs,
-                                 allcmds if fname == "task.txt" else CMDS + SRCLINE if fname.endswith(".dbg") else None)
+                                 allcmds if fname in ("task.txt",) or fname.endswith(".sym") else
+                                 CMDS + SRCLINE if fname.endswith(".dbg") else None)
 
         ctx.log("e2e: %d jobs, %d whole-record copies, %d complete-line copies" % (len(jobs), len(canon_needed), len(text_canon_needed)))
         with ThreadPoolExecutor(16) as ex:
@@ -975,13 +1000,14 @@ def e2e(ctx, objdir):
             tnl = dict(ex.map(run_text_variant, need_nl))
         partial_accepted = 0
         nruns = 0
+        dropres = {(f, n): r for (f, m, n), r in results if m == "drop" and r is not None}
         for (fname, mode, n), res in results:
             if res is None:
                 continue
             kind = "dat" if is_task(fname) else "perf" if fname.startswith("perf-cpu") else "sym" if fname.endswith(".sym") else "map" if fname.endswith(".map") else fname
             tags = ["e2e:file=" + kind]
             how = {"cut": "cut at byte %d" % n, "missing": "missing", "drop": "without its line %d" % (n + 1),
-                   "stub": "with its line %d reduced to its first %d byte(s)" % (n // 4 + 1, n % 4)}[mode]
+                   "stub": "with its line %d reduced to its first %d byte(s)" % (n // 64 + 1, n % 64)}[mode]
             if mode == "missing":
                 tags.append("e2e:file-missing")
             elif mode == "stub":
@@ -1029,6 +1055,13 @@ def e2e(ctx, objdir):
                     viol(ctx, "e2e-sanitizer:%s:%s" % (kind, c), "uftrace %s: crash / out-of-bounds / undefined access (sanitizer report) on a "
                          "directory whose %s is %s" % (c, fname, how), rep, True)
                     continue
+                if mode == "stub" and fname.endswith(".sym") and c in dropres.get((fname, n // 64), {}):
+                    ref = dropres[(fname, n // 64)][c]
+                    if (rc, out) != (ref[0], ref[1]):
+                        rep["expected_stdout"] = ref[1][-600:]
+                        rep["expected_rc"] = ref[0]
+                        viol(ctx, "e2e-symstub", "uftrace %s with line %d of %s reduced to its first %d bytes (no symbol name left) does not "
+                             "print what it prints without that line" % (c, n // 64 + 1, fname, n % 64), rep)
                 if mode != "cut" or c == DIFF_DAMAGED[0]:
                     continue
                 if is_task(fname) and n > 0 and whole(fname, n) != n:
@@ -1044,10 +1077,11 @@ def e2e(ctx, objdir):
                         viol(ctx, "e2e-output:" + c, "uftrace %s on a task file (%s) cut at byte %d neither prints what it prints on the "
                              "copy cut at the last whole record (byte %d) nor stops with a diagnostic and a prefix of that output"
                              % (c, fname, n, wl), rep)
-                elif (c in CMDS or fname == "task.txt" or (fname.endswith(".dbg") and c in SRCLINE)) and unterminated(fname, n):
+                elif (c in CMDS or fname == "task.txt" or fname.endswith(".sym") or (fname.endswith(".dbg") and c in SRCLINE)) \
+                        and unterminated(fname, n):
                     k = line_start(fname, n)
                     ref = tcanon[(fname, k, 0)][c]
-                    if fname == "task.txt" or fname.endswith(".dbg"):
+                    if fname == "task.txt" or fname.endswith((".dbg", ".sym")):
                         # these readers skip an unterminated last line (C12_task_txt_prefix; .dbg alike): exactly the copy
                         if (rc, out) != (ref[0], ref[1]):
                             rep["expected_stdout"] = ref[1][-600:]
@@ -1178,7 +1212,7 @@ def replay(ctx, obj):
             files[fname] = pre + b"".join(ls[:n] + ls[n + 1:])
         elif damage == "stub":
             pre, ls = text_lines(files[fname], fname)
-            i, k = divmod(n, 4)
+            i, k = divmod(n, 64)
             files[fname] = pre + b"".join(ls[:i] + [ls[i][:k].rstrip(b"\n") + b"\n"] + ls[i + 1:])
         else:
             files[fname] = files[fname][:n]
